@@ -2,6 +2,11 @@
 use crate::Ctx;
 use quizx::params::{Expr, Parity};
 use num::Zero;
+use quizx::circuit::Circuit;
+use quizx::graph::GraphLike;
+use quizx::tensor::ToTensor;
+use quizx::vec_graph::Graph;
+use crate::guard;
 
 fn all_parities() -> Vec<Parity> {
     let mut v = vec![];
@@ -59,6 +64,40 @@ pub fn run(cx: &mut Ctx) {
         }
             let l = Expr::linear(a.clone());
             cb(&|| format!("linear({:?})", a), if (0..16).all(|s| eval_expr(&l, s) == eval(a, s)) && l.is_linear() { Ok(()) } else { Err(format!("got {:?}", l)) });
+        }
+    });
+    // Translation of measurements (bounded, RELATIVE oracle: the library's own tensor evaluator and its translation of
+    // the variable-free `post_sel` gate).  For every outcome assignment, the measured circuit with the assignment
+    // substituted must be the circuit in which the k-th measurement is replaced by X^{b_k} followed by post-selection.
+    cx.check("measure_translation_projects", |cb| {
+        let n = 3usize;
+        let alphabet: Vec<(&str, Vec<usize>)> = vec![("h", vec![0]), ("h", vec![1]), ("x", vec![1]), ("x", vec![2]), ("cx", vec![0, 1]), ("cx", vec![1, 2]), ("cz", vec![0, 2]), ("t", vec![1]), ("t", vec![2]),
+                                                      ("measure_d", vec![0]), ("measure_d", vec![1]), ("measure_d", vec![2])];
+        let mut seqs: Vec<Vec<usize>> = vec![vec![]];
+        for _ in 0..3 { let mut nxt = vec![]; for s in &seqs { for a in 0..alphabet.len() { let mut t = s.clone(); t.push(a); nxt.push(t); } } seqs.extend(nxt); seqs.sort(); seqs.dedup(); }
+        for sq in seqs.iter().filter(|s| s.iter().any(|&a| alphabet[a].0 == "measure_d")) {
+            // a qubit is measured at most once, and never used afterwards except by the documented "ignored" rule
+            let meas: Vec<usize> = sq.iter().filter(|&&a| alphabet[a].0 == "measure_d").map(|&a| alphabet[a].1[0]).collect();
+            if (1..meas.len()).any(|i| meas[..i].contains(&meas[i])) { continue; }
+            let v = guard(|| {
+                let mut c = Circuit::new(n);
+                for &a in sq { c.add_gate(alphabet[a].0, alphabet[a].1.clone()); }
+                let g: Graph = c.to_graph();
+                for asg in 0..1u32 << meas.len() {
+                    // substitute: add pi where the parity is odd, multiply in the factors whose condition holds
+                    let mut h = g.clone();
+                    for v in h.vertex_vec() { let p = h.vars(v); if eval(&p, asg) { h.add_to_phase(v, num::Rational64::new(1, 1)); } h.set_vars(v, Parity::zero()); }
+                    for (e, f) in g.scalar_factors() { if eval_expr(e, asg) { *h.scalar_mut() *= *f; } }
+                    let mut d = Circuit::new(n);
+                    let mut k = 0;
+                    for &a in sq { let (name, qs) = &alphabet[a]; if *name == "measure_d" { if asg >> k & 1 == 1 { d.add_gate("x", qs.clone()); } d.add_gate("post_sel", qs.clone()); k += 1; } else { d.add_gate(name, qs.clone()); } }
+                    let want: Graph = d.to_graph();
+                    let (t1, t2) = (h.to_tensorf(), want.to_tensorf());
+                    if t1.shape() != t2.shape() || t1.iter().zip(t2.iter()).any(|(x, y)| (x - y).norm() > 1e-9) { return Err(format!("outcome assignment {:#b}: the measured circuit denotes a different map than the projected circuit", asg)); }
+                }
+                Ok(())
+            }).and_then(|r| r);
+            cb(&|| format!("{:?}", sq.iter().map(|&a| (alphabet[a].0, alphabet[a].1.clone())).collect::<Vec<_>>()), v);
         }
     });
 }
